@@ -102,11 +102,23 @@ fn policy(plural: bool) -> SettlementPolicy {
 // configurations (alphabets)
 // ---------------------------------------------------------------------------------------------
 
+impl Cfg {
+    fn strand_prog(&self, k: u8, j: u8) -> Program {
+        match (&self.strand2, k) {
+            (Some(s2), 2) => s2[j as usize].clone(),
+            _ => self.strand[j as usize].clone(),
+        }
+    }
+}
+
 #[derive(Clone)]
 struct Cfg {
     name: &'static str,
     parent: Vec<Program>,
     strand: Vec<Program>,
+    /// alphabet of strand 2 when it differs from strand 1's (sibling strands that write the same
+    /// slots with DIFFERENT values); `None` = same as `strand`
+    strand2: Option<Vec<Program>>,
     max_strands: u8,
     pins: bool,
     nested: bool,
@@ -137,6 +149,22 @@ fn slots_strand() -> Vec<Program> {
         prog(vec![Step::SetNodeAtt { n: 1, v: 2 }]),      // X := "AB"
         prog(vec![Step::SetNodeAtt { n: 2, v: 2 }]),      // Y := "AB"
         prog(vec![Step::CopyNodeAtt { from: 1, to: 3 }]), // Z := X   (same bytes as the parent's)
+    ]
+}
+/// Strand 2's alphabet in sibling configurations: the same slots, other bytes.
+fn slots_strand_b() -> Vec<Program> {
+    vec![
+        prog(vec![Step::SetNodeAtt { n: 1, v: 3 }]), // X := third payload
+        prog(vec![Step::SetNodeAtt { n: 2, v: 3 }]), // Y := third payload
+    ]
+}
+/// Entries that write two slots at once: X := the value the parent's own intent writes ("A"),
+/// Y := a different value; and the mirrored one; plus a plain single-slot writer.
+fn mixed_strand() -> Vec<Program> {
+    vec![
+        prog(vec![Step::SetNodeAtt { n: 1, v: 1 }, Step::SetNodeAtt { n: 2, v: 2 }]), // X := "A" (= parent's), Y := "AB"
+        prog(vec![Step::SetNodeAtt { n: 1, v: 2 }, Step::SetNodeAtt { n: 2, v: 1 }]), // X := "AB", Y := "A" (= parent's)
+        prog(vec![Step::CopyNodeAtt { from: 1, to: 3 }, Step::SetNodeAtt { n: 2, v: 2 }]), // Z := X (reads X), Y := "AB"
     ]
 }
 /// Structural alphabet: node record, edge record, edge attachment.
@@ -1550,7 +1578,7 @@ fn step(cx: &Ctx, pre: &St, op: &Op, path: &[Op]) -> Option<St> {
     cx.r.eval(1);
     match op {
         Op::PTick(i) => do_tick(cx, pre, parent(), &cx.cfg.parent[*i as usize], path, op),
-        Op::STick(k, j) => do_tick(cx, pre, child(*k), &cx.cfg.strand[*j as usize], path, op),
+        Op::STick(k, j) => do_tick(cx, pre, child(*k), &cx.cfg.strand_prog(*k, *j), path, op),
         Op::Fork { k, src, t } => do_fork(cx, pre, *k, *src, *t, path, op),
         Op::Settle(k, p) => do_settle(cx, pre, *k, *p, path, op),
         Op::Pin(a, b) => do_pin(cx, pre, *a, *b, false, path, op),
@@ -2016,6 +2044,7 @@ fn configs(r: &Report) -> Vec<Cfg> {
         name: "slots",
         parent: slots_parent(),
         strand: slots_strand(),
+        strand2: None,
         max_strands: 1,
         pins: false,
         nested: false,
@@ -2028,6 +2057,7 @@ fn configs(r: &Report) -> Vec<Cfg> {
         name: "structure",
         parent: struct_parent(),
         strand: struct_strand(),
+        strand2: None,
         max_strands: 1,
         pins: false,
         nested: false,
@@ -2040,6 +2070,7 @@ fn configs(r: &Report) -> Vec<Cfg> {
         name: "two-strands",
         parent: slots_parent()[..2].to_vec(),
         strand: slots_strand()[..2].to_vec(),
+        strand2: Some(slots_strand_b()),
         max_strands: 2,
         pins: true,
         nested: false,
@@ -2048,11 +2079,43 @@ fn configs(r: &Report) -> Vec<Cfg> {
         prefix: vec![Op::Fork { k: 1, src: 0, t: 0 }],
         last_level_settle_fork_only: quick,
     });
+    // sibling strands forked from the same parent tick, writing the SAME slots with different
+    // values, settled one after the other: the first settlement moves the parent through a
+    // MergeImport entry, which the second settlement must see as parent movement
+    v.push(Cfg {
+        name: "siblings",
+        parent: slots_parent()[..1].to_vec(),
+        strand: slots_strand()[..2].to_vec(),
+        strand2: Some(slots_strand_b()),
+        max_strands: 2,
+        pins: false,
+        nested: false,
+        depth: if quick { 4 } else { 5 },
+        probe_depth: 2,
+        prefix: vec![Op::Fork { k: 1, src: 0, t: 0 }, Op::Fork { k: 2, src: 0, t: 0 }],
+        last_level_settle_fork_only: true,
+    });
+    // one strand entry that overlaps the moved parent on TWO slots with a mixed outcome (X gets the
+    // value the parent already holds, Y a different one), next to single-slot entries
+    v.push(Cfg {
+        name: "mixed-overlap",
+        parent: slots_parent()[..2].to_vec(),
+        strand: mixed_strand(),
+        strand2: None,
+        max_strands: 1,
+        pins: false,
+        nested: false,
+        depth: if quick { 4 } else { 5 },
+        probe_depth: 2,
+        prefix: vec![Op::Fork { k: 1, src: 0, t: 0 }],
+        last_level_settle_fork_only: true,
+    });
     if !quick {
         v.push(Cfg {
             name: "nested",
             parent: slots_parent()[..2].to_vec(),
             strand: slots_strand()[..2].to_vec(),
+            strand2: None,
             max_strands: 2,
             pins: false,
             nested: true,
@@ -2106,6 +2169,7 @@ fn replay(r: &Report, file: &std::path::Path) {
             name: "nested",
             parent: slots_parent()[..2].to_vec(),
             strand: slots_strand()[..2].to_vec(),
+            strand2: None,
             max_strands: 2,
             pins: false,
             nested: true,
